@@ -6,6 +6,7 @@ import copy
 import json
 import os
 import re
+import time
 
 import vlib
 
@@ -61,7 +62,7 @@ def run_harness(ctx, tools, tag, args, timeout=30000, seed=None):
     return t, j, None
 
 
-def run_specs(ctx, tools, tag, specs):
+def run_specs(ctx, tools, tag, specs, real_oracle=True):
     """run explicit specs (each carries its own single flag setting)"""
     p = os.path.join(ctx.scratch, "specs_%s.jsonl" % tag)
     with open(p, "w") as f:
@@ -70,7 +71,7 @@ def run_specs(ctx, tools, tag, specs):
             s["flagsets"] = [(1 if s.get("recurse") else 0) | (2 if s.get("vt") else 0)
                              | (4 if s.get("grpc") else 0)]
             f.write(json.dumps(s) + "\n")
-    return run_harness(ctx, tools, tag, ["-mode", "spec", "-spec", p])
+    return run_harness(ctx, tools, tag, ["-mode", "spec", "-spec", p] + ([] if real_oracle else ["-norealoracle"]))
 
 
 def judge(ctx, terms, fn="proto_judge", tag="cases", count=None, shard=120):
@@ -146,27 +147,78 @@ def candidates(spec):
     return out
 
 
-def minimise(ctx, tools, j, sig, rounds=14):
-    """greedy delta debugging: keep any one-step reduction that is still judged with the same
-    signature (same verdict, same differing observables), so the case cannot drift into a
-    different failure (e.g. an include directory that no longer exists).  Returns (case, sig)."""
+def spec_size(spec):
+    return (len(spec["tree"]) + 2 * len(spec["includes"]) + sum(1 for f in ("recurse", "vt", "grpc") if spec.get(f)))
+
+
+def merged(spec, cands):
+    """all the given one-step reductions of `spec` applied at once (tree entries and includes
+    removed by any of them are removed, flags cleared by any of them are cleared)"""
+    s = copy.deepcopy(spec)
+    key = lambda e: json.dumps(e, sort_keys=True)
+    keep_tree = set(key(e) for e in spec["tree"])
+    keep_inc = set(key(i) for i in spec["includes"])
+    simple = True
+    for c in cands:
+        keep_tree &= set(key(e) for e in c["tree"])
+        if len(c["includes"]) < len(spec["includes"]):
+            keep_inc &= set(key(i) for i in c["includes"])
+        elif c["includes"] != spec["includes"] or c["input"] != spec["input"]:
+            simple = False          # spelling / prefix changes are not merged
+        for fl in ("recurse", "vt", "grpc", "comma_join"):
+            if spec.get(fl) and not c.get(fl):
+                s[fl] = False
+    s["tree"] = [e for e in spec["tree"] if key(e) in keep_tree]
+    s["includes"] = [i for i in spec["includes"] if key(i) in keep_inc]
+    # the directories named by the configuration stay
+    need = {s["cwd"], s["input"]["path"]} | {i["dir"]["path"] for i in s["includes"]}
+    have = {e["path"] for e in s["tree"]}
+    for e in spec["tree"]:
+        if e["kind"] == "dir" and e["path"] not in have and any(_under(k, e["path"]) for k in need):
+            s["tree"].append(e)
+    return s, simple
+
+
+def minimise(ctx, tools, j, sig, rounds=14, deadline=None):
+    """greedy delta debugging: keep a reduction that is still judged with the same signature
+    (same verdict, no new differing observable), so the case cannot drift into a different
+    failure (e.g. an include directory that no longer exists).  Every round tries all one-step
+    reductions side by side, then all the successful ones at once; it stops at `deadline`
+    (time.time() value) — the case reported is then the smallest one reached.  The real
+    PackageNameFromPath helper is not called in these rounds (the tool's own calls are what the
+    verdict depends on).  Returns (case, sig)."""
     best = j
+
+    def ok(c):
+        return c % 4 == sig % 4 and (c // 4) & ~(sig // 4) == 0
+
     for rnd in range(rounds):
+        if deadline is not None and time.time() > deadline:
+            break
         cands = candidates(best["spec"])
         if not cands:
             break
-        terms, jsons, err = run_specs(ctx, tools, "min%d" % rnd, cands)
+        terms, jsons, err = run_specs(ctx, tools, "min%d" % rnd, cands, real_oracle=False)
         if err or not terms:
             break
         bad, _, err = judge(ctx, terms, fn="proto_judge_sig", tag="min%d" % rnd, shard=4000)
         if err:
             break
-        # same verdict, and nothing differs that did not differ before (the set may shrink: e.g.
-        # dropping -grpc removes the grpc mappings from the difference, it never adds a new one)
-        same = [(i, c) for i, c in bad if c % 4 == sig % 4 and (c // 4) & ~(sig // 4) == 0]
+        same = [(i, c) for i, c in bad if ok(c)]
         if not same:
             break
-        best, sig = jsons[same[0][0]], same[0][1]
+        nbest, nsig = jsons[same[0][0]], same[0][1]
+        if len(same) > 1 and not (deadline is not None and time.time() > deadline):
+            m, _ = merged(best["spec"], [jsons[i]["spec"] for i, _ in same])
+            if spec_size(m) < spec_size(nbest["spec"]):
+                t2, j2, err = run_specs(ctx, tools, "minm%d" % rnd, [m], real_oracle=False)
+                if not err and t2:
+                    b2, _, err = judge(ctx, t2, fn="proto_judge_sig", tag="minm%d" % rnd, shard=4000)
+                    if not err and b2 and ok(b2[0][1]):
+                        nbest, nsig = j2[0], b2[0][1]
+        best, sig = nbest, nsig
+        ctx.log("minimise round %d: %d candidates, %d keep the signature, size now %d" % (
+            rnd, len(cands), len(same), spec_size(best["spec"])))
     return best, sig
 
 
